@@ -393,7 +393,7 @@ static void part_fun(Rng& r, long n) {
         }
         if (r.coin(30) && !getenv("H_INNER_NOHIST")) { IntervalVector other = box_around(r, planted); try { f.ibwd(Interval(-1, 1), other); } catch (...) {} }   // history
         IntervalVector res = box;
-        if (seed.is_empty()) f.ibwd(y, res); else f.ibwd(y, res, seed);
+        if (seed.is_empty() && r.coin()) f.ibwd(y, res); else f.ibwd(y, res, seed);   // (contracting mode through both entry points: the 2-argument one and the 3-argument one with an EMPTY seed)
         rm("Function::ibwd");
         EMIT("ibwdf %s in:%s %s %s %s => %s\n", dag.c_str(), mtok(y).c_str(), tok(box).c_str(), tok(seed).c_str(), pts_token(r, res, 6).c_str(), tok(res).c_str());
       }
@@ -453,7 +453,7 @@ static void part_funt(Rng& r, long n) {
           default: y = Interval(v.lb() - r.range(0, 4) / 64.0, v.ub() + r.range(0, 4) / 64.0); break;
         }
         IntervalVector res = box;
-        if (seed.is_empty()) f.ibwd(y, res); else f.ibwd(y, res, seed);
+        if (seed.is_empty() && r.coin()) f.ibwd(y, res); else f.ibwd(y, res, seed);   // (contracting mode through both entry points: the 2-argument one and the 3-argument one with an EMPTY seed)
         rm("Function::ibwd");
         string encl = "-";
         bool ok_box = !res.is_empty(); for (int i = 0; ok_box && i < nv; i++) if (res[i].is_empty()) ok_box = false;
